@@ -150,13 +150,12 @@ Lemma req_body_pv s1 q script s3 rc st0 sr fin cks :
   Inv noex s1 -> GR s1 ->
   (forall k, q_cookie q = CKey k ->
      (forall dd, ~ In (dd, k) (pending s1)) /\ (view s1 k = None \/ exists d, view s1 k = Some (None, d))) ->
-  forallb nogetdel script = true ->
   req_body s1 q script = (s3, rc, st0, sr, fin, cks) ->
   (forall k, CKey k <> q_cookie q -> key_drawn s1 k -> pv s3 k = None \/ pv s3 k = pv s1 k) /\
   (st0 <> None -> forall id', apply_cookies (q_cookie q) cks = CKey id' ->
      forall p, pv s3 id' = Some p -> okp (c_acceptip (conf s1)) (c_acceptua (conf s1)) (q_addr q) (q_ua q) p).
 Proof.
-  intros HI HG Hjar Hscr. unfold req_body, HistInv3.req_body.
+  intros HI HG Hjar. unfold req_body, HistInv3.req_body.
   pose proof (start_eff s1 q HI HG Hjar) as HS. pose proof (start_pv s1 q HI HG Hjar) as HP.
   destruct (start s1 q) as [[s2 res] cks0]. unfold start_post in HS. unfold pv_post in HP. cbn [fst snd] in *.
   destruct HS as (HI2 & HG2 & Hc2 & Hu2 & _ & _ & Hres). destruct HP as (Pk & Po).
@@ -169,10 +168,10 @@ Proof.
     assert (HD' : hand (fire_due s2) o id d0) by (apply hand_fire_due; assumption).
     pose proof (ownp_fire_due _ _ _ _ s2 o (inv_plan _ _ HI2) (Po o eq_refl)) as Po2.
     destruct (run_script_pv (c_acceptip (conf s1)) (c_acceptua (conf s1)) (q_addr q) (q_ua q) script
-                (fire_due s2) o id d0 (had_cookie q) HI2' HG2' HD' Hscr) as (Rk & Ro).
+                (fire_due s2) o id d0 (had_cookie q) HI2' HG2' HD') as (Rk & Ro).
     destruct (run_script (fire_due s2) o (had_cookie q) script) as [[s3' sr'] cks'] eqn:Hr. cbn [fst] in *.
     intros [= <- <- <- <- <- <-].
-    destruct (run_script_eff script (fire_due s2) o id d0 _ s3' sr' cks' HI2' HG2' HD' Hscr Hr)
+    destruct (run_script_eff script (fire_due s2) o id d0 _ s3' sr' cks' HI2' HG2' HD' Hr)
       as (_ & _ & _ & _ & gfin & U & _ & _ & _ & Hfin).
     split.
     + intros k H1 H2.
